@@ -127,6 +127,10 @@ def gen_content_op(rng, name, scope_enc, pool=None, big=False):
     if name == 'preamble':
         eff = own or scope_enc
         op['text'] = gen_text(rng, eff, 60 if big else 8)
+
+        if big and rng.chance(0.25):
+            # long contents / long lines (well beyond any read-ahead block)
+            op['text'] = op['text'] * rng.choice([20, 300, 2000])
         k = rng.below(8)
 
         if k < 5:
@@ -141,7 +145,12 @@ def gen_content_op(rng, name, scope_enc, pool=None, big=False):
     elif name == 'meta':
         op['metadata'] = gen_metadata(rng)
     else:
-        op['content_hex'] = gen_diff_bytes(rng, own).hex()
+        body = gen_diff_bytes(rng, own)
+
+        if big and rng.chance(0.25):
+            body = body * rng.choice([20, 300, 2000])
+
+        op['content_hex'] = body.hex()
 
         if rng.chance(0.5):
             op['line_endings'] = rng.choice(['unix', 'dos'])
@@ -192,7 +201,7 @@ def gen_history(rng, max_changes=3, max_files=3, pool=None, p_enc=0.4,
             ops.append(gen_content_op(rng, 'meta', scope[-1], pool))
 
             if rng.chance(0.6):
-                ops.append(gen_content_op(rng, 'diff', None, pool))
+                ops.append(gen_content_op(rng, 'diff', None, pool, big))
 
     if allow_partial and rng.chance(0.1):
         # a producer may stop mid-structure; what it wrote is still a
